@@ -30,6 +30,10 @@ class C09(WrapHarness):
         out.append({'feat': 'full', 'algo': 'F' if q else 'O', 'sep': 'U', 'split': 'H', 'bw': True, 'le': 'LF', 'ind': 'si',
                     'imax': 1, 'mode': 'indep', 'na': 1 if q else 2, 'nb': 2, 'na2': 1, 'alpha': [' ', 'a', '-', '你'],
                     'wmax': 1 << 20})
+        # stray carriage returns: parts may contain CR (a CR that is not part of the configured ending is ordinary text)
+        for le in ('CRLF', 'LF'):
+            out.append({'feat': 'full', 'algo': 'F', 'sep': 'A', 'split': 'H', 'bw': True, 'le': le, 'ind': 'none', 'imax': 1,
+                        'wmax': 1 << 20, 'mode': 'prefix', 'na': 2, 'nb': 2 if q else 3, 'na2': 0, 'cr': True})
         # sentence templates for the two parts (paragraph-sized a and b with symbolic positions)
         tb = {'feat': 'full', 'algo': 'F', 'sep': 'A', 'split': 'H', 'bw': True, 'le': 'LF', 'ind': 'si', 'imax': 1,
               'wmax': 1 << 20, 'na': 0, 'nb': 0, 'na2': 1}
@@ -50,14 +54,16 @@ class C09(WrapHarness):
     def bounds_text(self, tier):
         return ('a, a\' of <= 2 / 1 symbolic 1-byte characters (a may itself contain line endings), b of <= 2-3, all widths '
                 '(<= 2^20 with optimal-fit), LF and CRLF, empty and symbolic indents (<= 1 character), both algorithms; '
-                'Unicode separator over a small alphabet')
+                'Unicode separator over a small alphabet; carriage returns inside a and b only in the two cr=True spaces (first-fit, '
+                'ASCII separator, no indents), excluded elsewhere')
 
     def gen_part(self, I, cfg, n, tag):
         if 't' + tag in cfg:
             return gen_tmpl(I, cfg['t' + tag], tag, exclude=(13, ESC))
         if 'alpha' in cfg:
             return gen_alpha(I, n, cfg['alpha'], lenvar=True)
-        return gen_text(I, n, tag, (1,), exclude=(13,), lenvar=True)
+        # cr=True: carriage returns allowed inside the parts (stray CR next to a CRLF ending, CR at the end of the text)
+        return gen_text(I, n, tag, (1,), exclude=() if cfg.get('cr') else (13,), lenvar=True)
 
     def run(self, I, cfg):
         a = self.gen_part(I, cfg, cfg['na'], 'a')
